@@ -542,6 +542,12 @@ Proof.
   rewrite IH by (intros u Hu; apply H; right; exact Hu). reflexivity.
 Qed.
 
+Lemma lsumf_zero f l : (forall u, In u l -> f u = 0%Q) -> (lsumf f l == 0)%Q.
+Proof.
+  induction l as [|a l IH]; intros H; [reflexivity|]. cbn [lsumf fold_right]. fold (lsumf f l).
+  rewrite (H a) by (left; reflexivity). rewrite IH by (intros u Hu; apply H; right; exact Hu). ring.
+Qed.
+
 Lemma lsumf_cons f a l : lsumf f (a :: l) = (f a + lsumf f l)%Q.
 Proof. reflexivity. Qed.
 
@@ -1027,12 +1033,11 @@ Section Forward.
       assert (Hvs : v <> s).
       { intros ->. apply Hn. apply (Hseen s Hs). rewrite (c_s0 _ _ HC). lia. }
       assert (Em : dzf d v = (-1)%Z) by (apply (c_out _ _ HC v Hv); intros H; apply Hn, Hin; exact H).
-      assert (Z : (zq (nthz sg v) == 0)%Q).
-      { rewrite (S4 v Hv Hvs). rewrite (lsumf_ext _ (fun _ => 0%Q)).
-        - clear. induction seen as [|a l IH]; [reflexivity|]. rewrite lsumf_cons, IH. ring.
-        - intros u Hu. unfold tm, pc. assert (H0 := proj1 (Hseen u (Hlts u Hu)) Hu).
-          destruct (dzf d u + 1 =? dzf d v)%Z eqn:E; [apply Z.eqb_eq in E; lia|]. rewrite andb_false_r. reflexivity. }
-      unfold zq in Z. change 0%Q with (inject_Z 0) in Z. apply inject_Z_injective in Z. exact Z.
+      assert (Zq : (zq (nthz sg v) == 0)%Q).
+      { rewrite (S4 v Hv Hvs). apply lsumf_zero.
+        intros u Hu. unfold tm, pc. assert (H0 := proj1 (Hseen u (Hlts u Hu)) Hu).
+        destruct (dzf d u + 1 =? dzf d v)%Z eqn:E; [apply Z.eqb_eq in E; lia|]. rewrite andb_false_r. reflexivity. }
+      unfold zq in Zq. change 0%Q with (inject_Z 0) in Zq. apply inject_Z_injective in Zq. exact Zq.
     - exact S5.
   Qed.
 End Forward.
